@@ -22,7 +22,7 @@ PLAN = {
                 quick=[("panos", "P1", None), ("panos", "P2", None), ("panos", "P3", None), ("panos", "P7", None), ("panos", "P4", None), ("panos", "P8", 5000)],
                 thorough=[("panos", "P1", None), ("panos", "P2", None), ("panos", "P3", None), ("panos", "P7", None), ("panos", "P4", None), ("panos", "P8", None)]),
     "C05": dict(mode="conv", tags={"EQUIV", "FIXPOINT", "C08"},
-                quick=[("linux", "R1", None), ("linux", "I1", 6000), ("linux", "I2", None), ("linux", "I3", None)],
+                quick=[("linux", "R1", 8000), ("linux", "I1", 6000), ("linux", "I2", None), ("linux", "I3", None)],
                 thorough=[("linux", "R1", None), ("linux", "I1", None), ("linux", "I2", None), ("linux", "I3", None)]),
     "C18": dict(mode="merge", tags={"C18"}, crash_is_violation=True,
                 quick=[("asa", "M1", None), ("ios", "M1", None), ("linux", "M1", None), ("panos", "M1", None), ("nsx", "M1", None),
@@ -70,7 +70,7 @@ PLAN = {
                           ("nsx", "N1", None), ("nsx", "N2", None), ("nsx", "N3", None)]),
     "C14": dict(mode="conv", tags={"C14"},
                 quick=[("asa", "F1L", 6000), ("ios", "F1L", 6000), ("asa", "F1", 6000), ("asa", "F4", None), ("asa", "F3", 1500),
-                       ("ios", "F1", 6000), ("ios", "F4", 4000), ("ios", "F3", 1500), ("linux", "R1", None)],
+                       ("ios", "F1", 6000), ("ios", "F4", 4000), ("ios", "F3", 1500), ("linux", "R1", 8000)],
                 thorough=[("asa", "F1L", None), ("ios", "F1L", None), ("asa", "F1", None), ("asa", "F4", None), ("asa", "F3", 40000),
                           ("ios", "F1", None), ("ios", "F4", None), ("ios", "F3", None), ("linux", "R1", None)]),
     "C10": dict(mode="resume", tags={"EQUIV", "FIXPOINT", "C08"},
